@@ -1,30 +1,29 @@
 #!/bin/bash
-# seeded.sh [ids...] : for every seeded/<name>/patch.diff apply it to /repo, run the quick check(s) of the property it
-# breaks (meta.json: property, also_checks), record caught/missed in seeded/<name>/result.json, and undo the patch.
-# /repo must be clean (no uncommitted tracked changes) when this starts.
+# seeded.sh [names...] : for every seeded/<name>/patch.diff make a scratch worktree of /repo HEAD with the patch applied, run the
+# quick check(s) of the property it breaks against THAT tree (VERIF_REPO), record caught/missed in seeded/<name>/result.json,
+# remove the worktree. /repo itself is not touched, so several can run at once.   TIER=thorough for the thorough tier.
 set -u
 HERE=$(cd "$(dirname "$0")/.." && pwd); cd "$HERE"
-if [ -n "$(git -C /repo status --porcelain --untracked-files=no)" ]; then echo "/repo has uncommitted tracked changes; refusing"; exit 2; fi
 NAMES=${@:-$(ls seeded)}
 for n in $NAMES; do
   d=seeded/$n; [ -f $d/patch.diff ] || continue
   prop=$(python3 -c "import json;print(json.load(open('$d/meta.json'))['property'])")
   checks=$(python3 -c "import json;m=json.load(open('$d/meta.json'));print(' '.join([m['property']]+m.get('also_checks',[])))")
-  if ! git -C /repo apply --check $HERE/$d/patch.diff 2>/dev/null; then echo "$n: patch does not apply"; continue; fi
-  git -C /repo apply $HERE/$d/patch.diff
+  W=/tmp/mut/seeded-$n-$$; mkdir -p /tmp/mut
+  git -C /repo worktree add -q --detach $W HEAD
+  if ! git -C $W apply $HERE/$d/patch.diff 2>/dev/null; then echo "$n: patch does not apply to HEAD"; git -C /repo worktree remove --force $W; continue; fi
   res=""
   for c in $checks; do
     [ -f props/$c.json ] || { res="$res $c:noprop"; continue; }
-    out=$(VERIF_SEED=${VERIF_SEED:-1} bin/check $c --tier ${TIER:-quick} 2>&1); rc=$?
-    v=$(echo "$out" | grep -E '^VIOLATION' | head -1)
+    VERIF_REPO=$W VERIF_SEED=${VERIF_SEED:-1} bin/check $c --tier ${TIER:-quick} > $d/last_$c.log 2>&1; rc=$?
     res="$res $c:rc=$rc"
-    echo "$out" > $d/last_$c.log
   done
-  git -C /repo apply -R $HERE/$d/patch.diff || git -C /repo checkout -- .
+  git -C /repo worktree remove --force $W
   caught=$(echo "$res" | grep -q "$prop:rc=1" && echo true || echo false)
   python3 - <<PY
 import json
-json.dump({"name":"$n","property":"$prop","results":"$res".split(),"caught_by_own_property":"$caught"=="true"}, open("$d/result.json","w"), indent=1)
+json.dump({"name":"$n","property":"$prop","results":"$res".split(),"caught_by_own_property":"$caught"=="true",
+           "violation_line":[l.strip() for l in open("$d/last_$prop.log") if l.startswith("VIOLATION")][:1] if "$prop:rc" in "$res" else []}, open("$d/result.json","w"), indent=1)
 PY
   echo "$n ($prop):$res caught=$caught"
 done
